@@ -2356,7 +2356,13 @@ class Walker:
                                 # the other operand must be outside this family for the error to occur
                                 conds.append(("nottype", other, fam | (frozenset(["bytearray", "memoryview"]) if fam == frozenset(["bytes"]) else frozenset())))
                 self.rz(outs, s, e, "TypeError", "operator %s on operands of unknown/mixed type" % op, conds)
-            if op in ("/", "//", "%") and res != "str" and not (is_const(r) and isinstance(r[2], (int, float)) and r[2] != 0):
+            nonzero = is_const(r) and isinstance(r[2], (int, float)) and r[2] != 0
+            if not nonzero and is_call(r, "builtin:len") and len(r[2]) == 1:
+                # len(x) with x known to be non-empty (`... if x else 0`, a guard `if not x: raise`)
+                nonzero = s.truth_value(r[2][0]) is True or s.holds(("truthy", r[2][0])) or s.holds(("ne", r, C(0))) or s.holds(("cmp", ">", r, C(0))) or s.holds(("cmp", ">=", r, C(1)))
+            if not nonzero and (s.holds(("ne", r, C(0))) or s.holds(("truthy", r))):
+                nonzero = True
+            if op in ("/", "//", "%") and res != "str" and not nonzero:
                 self.rz(outs, s, e, "ZeroDivisionError", "division", [("eq", r, C(0))])
             s = s.copy()
             if res in ("str", "bytes", "list"):
